@@ -9,6 +9,7 @@
 import PvModel.Proofs.FDTop
 namespace Pv
 open State Term FD
+variable [Mode]
 
 /-- the atoms of a constraint program -/
 inductive FAtom where
@@ -24,9 +25,10 @@ def FAtom.Sat (γ : Subst) : FAtom → Prop
   | .cst c => CstSem γ c
   | .dom x d => InDom x d γ
 
-/-- the atoms the theorems cover: no `distinctfd`, well-formed (non-empty, strictly sorted) domains -/
+/-- the atoms the theorems cover: constraints admissible in the mode (`distinctfd` only in the lax mode, and
+    on a proper list term), well-formed (non-empty, strictly sorted) domains -/
 def FAtom.OK : FAtom → Prop
-  | .cst c => c.isDistinct = false
+  | .cst c => CstOK c
   | .dom _ d => WF d
   | _ => True
 
@@ -42,10 +44,7 @@ def postAllF (ord : Order) : State → List FAtom → Res State
   | st, [] => .ok st
   | st, a :: as => (postF ord st a).bind fun st' => postAllF ord st' as
 
-/-- nothing is ignored at top level -/
-def NoI : Nat → Prop := fun _ => False
-
-theorem iok_noI (st : State) : IOK NoI st := fun _ h => h.elim
+theorem iok_noI (st : State) : IOK NoI st := fun _ h => h
 
 theorem postF_sem {ord : Order} (ho : OrderOK ord) {st : State} (w : WFS st) (hi : Inv st) (a : FAtom) (hok : a.OK) :
     Ref0 NoI (fun γ => a.Sat γ) st (postF ord st a) := by
@@ -85,14 +84,19 @@ theorem postAllF_sem {ord : Order} (ho : OrderOK ord) : ∀ (as : List FAtom) (s
         intro γ ⟨a1, a2⟩
         exact ih γ ⟨(sem1 γ).2 ⟨a1, a2 a (List.mem_cons_self ..)⟩, fun b hb => a2 b (List.mem_cons_of_mem _ hb)⟩
       | fuel => trivial
-      | panic s => rw [hq] at ih; exact ih
+      | panic s =>
+        rw [hq] at ih
+        exact ⟨ih.1, ih.2.1, fun γ ⟨a1, a2⟩ =>
+          ih.2.2 γ ⟨(sem1 γ).2 ⟨a1, a2 a (List.mem_cons_self ..)⟩, fun b hb => a2 b (List.mem_cons_of_mem _ hb)⟩⟩
     | fail =>
       rw [hp] at h1
       simp only [Res.bind]
       intro γ ⟨a1, a2⟩
       exact h1 γ ⟨a1, a2 a (List.mem_cons_self ..)⟩
     | fuel => trivial
-    | panic s => rw [hp] at h1; exact h1
+    | panic s =>
+      rw [hp] at h1
+      exact ⟨h1.1, h1.2.1, fun γ ⟨a1, a2⟩ => h1.2.2 γ ⟨a1, a2 a (List.mem_cons_self ..)⟩⟩
 
 /-- EXACTNESS from the empty state: the state after the whole conjunction describes exactly its solutions -/
 theorem fd_exact_ok {ord : Order} (ho : OrderOK ord) (n : Nat) (as : List FAtom) (hok : ∀ a ∈ as, a.OK)
@@ -127,14 +131,22 @@ theorem fd_order_free {ord ord' : Order} (ho : OrderOK ord) (ho' : OrderOK ord')
   · intro st1 h1 h2 γ hs
     exact fd_exact_fail ho' n as' hok' h2 ⟨γ, fun a ha => (fd_exact_ok ho n as hok st1 h1 γ).1 hs a (hp.mem_iff.2 ha)⟩
 
-/-- NO PANIC: posting any list of atoms of the fragment never reaches a panic site of the state machine
-    (`fd-minmax`: min/max of an empty domain — unreachable because stored domains stay well-formed) -/
-theorem fd_no_panic {ord : Order} (ho : OrderOK ord) (n : Nat) (as : List FAtom) (hok : ∀ a ∈ as, a.OK) (s : String) :
-    postAllF ord (State.empty n) as ≠ .panic s := by
-  intro h
+/-- a panic stands for a failure: it is reachable only in the lax mode, only at a panic site of `distinctfd`,
+    and only when the atoms have no solution -/
+theorem fd_panic_refuted {ord : Order} (ho : OrderOK ord) (n : Nat) (as : List FAtom) (hok : ∀ a ∈ as, a.OK) (s : String)
+    (h : postAllF ord (State.empty n) as = .panic s) : Mode.allow ∧ DP s ∧ ¬ ∃ γ, ∀ a ∈ as, a.Sat γ := by
   have r := postAllF_sem ho as (State.empty n) (wfs_empty n) (inv_empty n) hok
   rw [h] at r
-  exact r
+  exact ⟨r.1, r.2.1, fun ⟨γ, hγ⟩ => r.2.2 γ ⟨sem_empty n γ, hγ⟩⟩
+
+omit [Mode] in
+/-- NO PANIC: posting any list of atoms WITHOUT `distinctfd` never reaches a panic site of the state machine
+    (`fd-minmax`: min/max of an empty domain — unreachable because stored domains stay well-formed) -/
+theorem fd_no_panic {ord : Order} (ho : OrderOK ord) (n : Nat) (as : List FAtom)
+    (hok : ∀ a ∈ as, @FAtom.OK Mode.strict a) (s : String) :
+    postAllF ord (State.empty n) as ≠ .panic s := by
+  intro h
+  exact (@fd_panic_refuted Mode.strict ord ho n as hok s h).1
 
 /-- a state with nothing pending describes its own substitution: the answer itself satisfies every atom -/
 theorem fd_closed {ord : Order} (ho : OrderOK ord) (n : Nat) (as : List FAtom) (hok : ∀ a ∈ as, a.OK)
